@@ -248,8 +248,10 @@ def eval_filter_case(g, ctx, x, e, model_line=None):
         spec_ok = (leaves(b1) == want_sel and leaves(b2) == want_uns)
         if not spec_ok:
             ctx.correspondence_break("ChmL.filterSpec vs reference semantics", f"model spec {b1},{b2}", case)
-        if not asis_match:
-            ctx.correspondence_break("ChmL.filterAsis vs Fn.filter", f"model asis {a1},{a2} impl {norm(sel_part)},{norm(unsel_part)}", case)
+        spec_match = (b1 == norm(sel_part) and b2 == norm(unsel_part))
+        if not asis_match and not spec_match:
+            ctx.correspondence_break("ChmL.filterSpec / ChmL.filterAsis vs Fn.filter", f"model spec {b1},{b2} asis {a1},{a2} impl {norm(sel_part)},{norm(unsel_part)}", case)
+        ctx.count("filter-matches:" + ("spec" if spec_match else "asis" if asis_match else "neither"))
         case["model_flagSound"] = r[5]
         if r[5] == "T" and not ok_partition:
             ctx.correspondence_break("C16_filter_asis_partial premise", "flagSound but partition fails", case)
